@@ -14,7 +14,7 @@ sys.path.insert(0, os.path.join(VERIF, "units"))
 
 from rustlex import Undecided  # noqa: E402
 
-BUILD = os.path.join(VERIF, "build")
+BUILD = os.environ.get("VERIF_BUILD_DIR") or os.path.join(VERIF, "build")
 LABEL_RE = re.compile(r"//@\s*([A-Za-z0-9_.,\-]+)")
 
 SEMANTIC = [
